@@ -250,6 +250,31 @@ def clause5_teardown(ctx, P):
     ctx.floor("C01.5 R-ORDER", 3)
 
 
+def clause7b_failed_attach_is_reported(ctx, P):
+    """the walk can only refuse a fetch it hears about: in add_fetch_to_state_and_notify() every path on which attaching the fetch to
+    the element, or announcing the element to it, has failed returns a failure - a failure that is only logged lets the fetch be
+    answered with success while one matching state will never notify it"""
+    f = P.fn("fetch.c:add_fetch_to_state_and_notify")
+    bad = None
+    n = 0
+    for v in Q.path_views(ctx, P, f):
+        failed = None
+        for (a, p) in v.atoms:
+            if a[0] == "cmp" and a[3] == ("const", 0) and a[2][0] == "call" and a[2][1] in ("add_fetch_to_state", "notify_fetching_peer"):
+                if (a[1] == "ne" and p) or (a[1] == "eq" and not p) or (a[1] == "slt" and p):
+                    failed = a[2][1]
+        if failed is None:
+            continue
+        n += 1
+        rc = v.ret_const()
+        if rc is None or rc >= 0:
+            bad = (v, failed)
+    ctx.ob("C01.1 R-RET", f, "failed-attach-is-reported", bad is None and n >= 2,
+           ("add_fetch_to_state_and_notify() returns success on a path on which %s() has failed: the fetch is accepted and stays "
+            "registered, but that state will never be announced or notify it" % bad[1]) if bad else "%d failing paths, each reported" % n,
+           witness=bad[0].witness() if bad else None)
+
+
 def clause7_attach_all(ctx, P, cg):
     """a fetch is answered with success only if attaching it succeeded at EVERY peer: inside the walk over the peers the result
     of the per-peer step is tested and a failure leaves the walk (a result that is only looked at after the loop is the last
@@ -440,6 +465,7 @@ def run(ctx):
         clause5_teardown(ctx, P)
         clause6_event_payload(ctx, P, cg)
         clause7_attach_all(ctx, P, cg)
+        clause7b_failed_attach_is_reported(ctx, P)
         clause8_fetch_identity(ctx, P)
         clause9_refused_fetch_is_gone(ctx, P, cg)
         clause10_visibility_inputs(ctx, P)
